@@ -275,10 +275,16 @@ def mustRouteVerdict (m : Mon) (cc : World.CliConf) (pkt : Bytes) (out : String)
              !(sections out).any (fun sec => sec.startsWith ("S:" ++ name ++ ":-")) &&
              -- (… and connected: which server a realm yields, if any, while connections are being set up or have failed is C09's matter)
              (sections out).any (fun sec => sec.startsWith ("S:" ++ name ++ " ") && (sec.splitOn " ").contains "st=2") &&
-             (((m.slots.find? (·.1 = name)).map (·.2)).getD []).length < 200 &&
+             -- (… with an identifier free: all 256, or 255 of them while identifier 0 is kept for the probe)
+             (((m.slots.find? (·.1 = name)).map (·.2)).getD []).length <
+               (if (((m.srvPrev.find? (·.1 = name)).map (·.2.2)).getD 1) = 0 then 256 else 255) &&
              !World.loopPrevents m.cfg.opts cc sc
            | none => false
-         if fine then "bad C08:request-matching-a-realm-with-servers-neither-forwarded-nor-answered" else "ok"
+         let roomy := l.all fun i => match m.cfg.srvs[i]? with
+           | some (name, _, _) => (((m.slots.find? (·.1 = name)).map (·.2)).getD []).length < 200
+           | none => true
+         if fine then (if roomy then "bad C08:request-matching-a-realm-with-servers-neither-forwarded-nor-answered"
+                       else "bad C11:request-dropped-although-an-identifier-of-the-server-was-free") else "ok"
        | none => "ok")
     | _ => "ok"
 
@@ -789,7 +795,14 @@ def monOp0 (m : Mon) (op : String) (args : List String) (impl : List String) (tr
                   match subsOf (a.v.length + 1) (a.v.drop 4) with
                   | none => false
                   | some subs => subs.any fun (st, _) => (forV.any (·.2 = st.toNat)) != r.whitelist))
+        -- C01: what a modify rule leaves is the replacement text with each \N replaced by what group N matched - nothing where it
+        -- matched nothing - , exactly that long (the rules' meaning as Rsp.Model.Rewrite states it, on regexec's own recorded answers)
+        let modBad : Bool :=
+          let mr := Rewrite.dorewrite (oracleOf (parseTranscript trToks)) rw inp
+          mr.ok && rw.any (fun r => r.modAttrs.isSome || r.modVAttrs.isSome) &&
+            (mr.attrs.map fun a => (a.t, a.v)) != (res.attrs.map fun a => (a.t, a.v))
         if vendorRmBad then (m, "bad C01:vendor-sub-attribute-named-by-a-removal-rule-survived-or-whitelisted-one-missing")
+        else if modBad then (m, "bad C01:attributes-after-the-rewrite-block-are-not-what-its-modify-rules-say")
         else if res.attrs.any (fun a => a.v.length > 253) then (m, "bad C06:attribute-value-longer-than-253-after-rewrite")
         else if (res.attrs.filter fun a => !touched a.t) != (inp.filter fun a => !touched a.t) then (m, "bad C01:untouched-attributes-not-preserved-by-rewrite")
         else (m, "ok")
